@@ -286,6 +286,7 @@ Proof.
     rewrite (lev_move st st' _ ce S HL).
     destruct (lev enc D' allkeys exports fuel st' _ ce); simpl; auto.
     destruct (lift (get_as_int None true None a)); simpl; auto.
+    destruct (65536 <? a0); [reflexivity|].
     simpl in Hm. rewrite lnames_nested in Hm. apply iter_sim; auto.
   - destruct inrep; [reflexivity|]. rewrite !lay_stmt_include.
     pose proof S as [Ea [Ef [Es [El [Et [Eb Ei]]]]]].
@@ -370,7 +371,7 @@ Qed.
 Lemma keeps_stmt s : keeps s.
 Proof.
   induction s as [ce body IH | own fid body IH | s Hs] using stmt_ind2; intros inrep st st' d H.
-  - rewrite lay_stmt_repeat in H. xinv H. clear Ha Ha0. revert st st' d H. generalize (Z.to_nat a0). intros k.
+  - rewrite lay_stmt_repeat in H. xinv H. destruct (65536 <? a0); [discriminate|]. clear Ha Ha0. revert st st' d H. generalize (Z.to_nat a0). intros k.
     induction k as [|k IHk]; intros st st' d H; simpl in H.
     + inversion H; subst. auto.
     + destruct (layl true body st) as [[s1 d1]| | | |] eqn:E1; try discriminate. cbn [xbind fst snd] in H.
